@@ -85,6 +85,9 @@ def generate(seed, tier):
             ops.append(["other"])
         elif r < 0.13:
             ops.append(["refill", rw.randrange(2 ** 31), rw.choice(["noise", "randwalk", "sine+noise", "trend+noise"])])
+        elif r < 0.2 and world == "numpy":
+            # two independent callers at the same time: this analysis and an analysis of ANOTHER record, interleaved
+            ops.append(["concurrent", rw.randrange(2 ** 31)])
         elif r < 0.25:
             ops.append(["compute"])
         elif r < 0.3:
@@ -199,7 +202,17 @@ def execute(sc, out):
             out.sim_steps += 1
             try:
                 with clock.installed():
-                    if kind == "wrapper":
+                    if kind == "concurrent":
+                        rec2 = SC.make_record(dict(sc["data"], rng=op[1], recipe="noise"))
+                        an2 = SC.build_analyzer(rec2, dict(cfg, band=None))
+                        an2.plan()
+                        r1, r2 = W.run_concurrently(sess.ctx, [an.compute, an2.compute])
+                        _check_against_reference(r1, x, y, cfg, out, "concurrent", backend)
+                        x2, y2 = (rec2[0], rec2[1]) if rec2.ndim == 2 else (rec2, None)
+                        _check_against_reference(r2, x2, y2, cfg, out, "concurrent", backend)
+                        out.count("two_concurrent_callers")
+                        out.nontrivial = True
+                    elif kind == "wrapper":
                         import speckit as _sk
 
                         kwargs = SC.analyzer_kwargs(cfg)
